@@ -10,7 +10,7 @@ CONSTANTS
   MaxDeviations = 2
   EnumDeviations = 2
   TraitSets <- TraitSetsThorough
-  MultiRanks = {2}
+  MultiRanks <- NegRank
   Vals = {0, 1}
 INVARIANTS SitesWellFormed
 CHECK_DEADLOCK FALSE
